@@ -1233,6 +1233,267 @@ func udNilSpec(o *udOut, r *u.Rng) {
 	fmt.Fprintf(o.w, "CASE 1 %s\n", u.App("NilSpec", zl(sU.Sizes), u.List(tpU), zl(sP.Sizes), u.List(tpP)))
 }
 
+// ---- Initial CRYPTO retransmission bookkeeping on the real packer (case Retx) -------------
+
+func udRanges(rs []quic.VerifRange) string {
+	s := make([]string, len(rs))
+	for i, x := range rs {
+		s[i] = u.Pair(u.Z(x.Off), u.Z(x.Len))
+	}
+	return u.List(s)
+}
+
+func udRangesEq(a, b []quic.VerifRange) bool {
+	if len(a) != len(b) {
+		return false
+	}
+	for i := range a {
+		if a[i] != b[i] {
+			return false
+		}
+	}
+	return true
+}
+
+// udPopped: what one Pack call took out of the retransmission queue (whole head frames, then
+// possibly a prefix split off the next one).
+func udPopped(before, after []quic.VerifRange) ([]quic.VerifRange, bool) {
+	for i := 0; i <= len(before); i++ {
+		if udRangesEq(before[i:], after) {
+			return append([]quic.VerifRange{}, before[:i]...), true
+		}
+		if i < len(before) && len(after) == len(before)-i && len(after) > 0 {
+			h, a := before[i], after[0]
+			if a.Off > h.Off && a.Off+a.Len == h.Off+h.Len && udRangesEq(before[i+1:], after[1:]) {
+				return append(append([]quic.VerifRange{}, before[:i]...), quic.VerifRange{Off: h.Off, Len: a.Off - h.Off}), true
+			}
+		}
+	}
+	return nil, false
+}
+
+// udWireCover: the CRYPTO frames in a serialised payload carry the true bytes; returns the
+// set of covered offsets.
+func udWireCover(wirePayload, hello []byte, cov []bool) string {
+	fr, err := udFrames(wirePayload)
+	if err != nil {
+		return "payload does not parse: " + err.Error()
+	}
+	for _, f := range fr {
+		if f.Type != 0x06 {
+			continue
+		}
+		end := int(f.Off) + len(f.Data)
+		if end > len(hello) {
+			return fmt.Sprintf("CRYPTO frame [%d,%d) beyond the %d byte stream", f.Off, end, len(hello))
+		}
+		if !bytes.Equal(f.Data, hello[f.Off:end]) {
+			return fmt.Sprintf("CRYPTO frame [%d,%d) does not carry the stream's bytes", f.Off, end)
+		}
+		for i := int(f.Off); i < end; i++ {
+			cov[i] = true
+		}
+	}
+	return ""
+}
+
+// scripted = the minimal witness of udial/retx/noncontiguous: three Initial datagrams of 300 CRYPTO
+// bytes, the middle one acknowledged, the outer two lost together.
+func udRetx(o *udOut, r *u.Rng, scripted bool) {
+	base := parrotNames[r.Intn(len(parrotNames))]
+	if scripted {
+		base = "Firefox_116A"
+	}
+	sp, err := specFor(base)
+	if err != nil {
+		return
+	}
+	ips := &sp.InitialPacketSpec
+	n := []int{280, 520, 1100, 1700, 2400, 3300, 4200}[r.Intn(7)] + r.Intn(60)
+	desc := "builder=parrot"
+	builderKind := r.Intn(6)
+	if scripted {
+		n, builderKind = 900, 1
+	}
+	switch builderKind {
+	case 0:
+		ips.FrameBuilder = nil
+		desc = "builder=nil"
+	case 1:
+		ips.FrameBuilder = quic.QUICFrames{}
+		desc = "builder=QUICFrames{}"
+	case 2:
+		f := udRandomFrames(r, false)
+		ips.FrameBuilder = &f
+		desc = fmt.Sprintf("builder=QUICRandomFrames%+v", f)
+	case 3: // planned flight: tail, head, middle
+		tail, head := 30+r.Intn(60), 20+r.Intn(100)
+		f := &quic.QUICFlightFrames{Datagrams: []quic.QUICFrames{{quic.QUICFrameCrypto{Offset: -tail}, quic.QUICFrameCrypto{Offset: 0, Length: head}}}}
+		pos := head
+		for n-tail-pos > 1000 {
+			f.Datagrams = append(f.Datagrams, quic.QUICFrames{quic.QUICFrameCrypto{Offset: pos, Length: 900}})
+			pos += 900
+		}
+		f.Datagrams = append(f.Datagrams, quic.QUICFrames{quic.QUICFrameCrypto{Offset: pos, Length: -tail}})
+		ips.FrameBuilder = f
+		ips.InitialPackets = nil
+		desc = fmt.Sprintf("builder=QUICFlightFrames(%d datagrams)", len(f.Datagrams))
+	}
+	if _, isFlight := ips.FrameBuilder.(quic.QUICFlightFrameBuilder); !isFlight && (scripted || r.Chance(2, 3)) {
+		cl := []int{100, 150, 200, 300, 500, 999}[r.Intn(6)]
+		if scripted {
+			cl = 300
+		}
+		ips.InitialPackets = []quic.InitialPacketPlan{{CryptoLength: cl, PacketSize: []int{0, 1200}[r.Intn(2)]}}
+		if rf, ok := ips.FrameBuilder.(*quic.QUICRandomFrames); ok {
+			c := *rf
+			c.Length, c.MinPADDING, c.MaxPADDING = 0, 0, 0
+			ips.FrameBuilder = &c
+		}
+		desc += fmt.Sprintf(" CryptoLength=%d PacketSize=%d", cl, ips.InitialPackets[0].PacketSize)
+	}
+	hello := make([]byte, n)
+	for i := range hello {
+		hello[i] = byte(i*7 + i>>8)
+	}
+	rx := quic.NewVerifRetx(sp, hello, 1252)
+	detail := func(extra string) string {
+		return fmt.Sprintf("base=%s %s hello=%d bytes: %s", base, desc, n, extra)
+	}
+	var hist []string
+	// --- the first flight ---
+	var flight []string
+	sent := make([]bool, n) // bytes that were on the wire at least once
+	var pns []int64
+	for i := 0; i < 64; i++ {
+		pkt, err, pan := rx.Pack(false)
+		if pan != nil || err != nil {
+			o.fail("udial/retx/flight", fmt.Sprintf("packing the first flight failed: err=%v panic=%v", err, pan), detail(""))
+			return
+		}
+		if pkt == nil {
+			break
+		}
+		if msg := udWireCover(pkt.Wire, hello, sent); msg != "" {
+			o.fail("udial/retx/wire", "first flight: "+msg, detail(fmt.Sprintf("pn=%d", pkt.PN)))
+		}
+		// what is registered for loss recovery is what the datagram carries
+		own := make([]bool, n)
+		_ = udWireCover(pkt.Wire, hello, own)
+		reg := make([]bool, n)
+		for _, f := range pkt.Frames {
+			for b := f.Off; b < f.Off+f.Len && b < int64(n); b++ {
+				reg[b] = true
+			}
+		}
+		for b := range own {
+			if own[b] != reg[b] {
+				o.fail("udial/retx/registered", fmt.Sprintf("first flight pn%d: CRYPTO byte %d is on the wire: %v, registered for loss recovery: %v", pkt.PN, b, own[b], reg[b]), detail(fmt.Sprintf("frames=%v", pkt.Frames)))
+				break
+			}
+		}
+		flight = append(flight, u.Pair(u.Z(pkt.PN), udRanges(pkt.Frames)))
+		pns = append(pns, pkt.PN)
+		hist = append(hist, fmt.Sprintf("sent pn%d %v", pkt.PN, pkt.Frames))
+	}
+	for i, ok := range sent {
+		if !ok {
+			o.fail("udial/retx/flight", fmt.Sprintf("the first flight never carries CRYPTO byte %d of %d", i, n), detail(strings.Join(hist, "; ")))
+			return
+		}
+	}
+	planned := rx.FlightPlanned()
+	// --- losses, acknowledgements, retransmissions ---
+	var ops []string
+	dead := false
+	acked := map[int64]bool{}
+	rounds := r.Range(1, 3)
+	if scripted {
+		rounds = 1
+	}
+	for round := 0; round < rounds && !dead; round++ {
+		outst := rx.Outstanding()
+		sort.Slice(outst, func(i, j int) bool { return outst[i] < outst[j] })
+		for i, pn := range outst {
+			choice := r.Intn(4)
+			if scripted {
+				choice = []int{0, 2, 0}[i%3]
+			}
+			switch choice {
+			case 0, 1:
+				rx.Lose(pn)
+				ops = append(ops, u.App("RLose", u.Z(pn)))
+				hist = append(hist, fmt.Sprintf("lost pn%d", pn))
+			case 2:
+				rx.Ack(pn)
+				acked[pn] = true
+				ops = append(ops, u.App("RAck", u.Z(pn)))
+				hist = append(hist, fmt.Sprintf("acked pn%d", pn))
+			}
+		}
+		for i := 0; i < 64; i++ {
+			before := rx.Queue()
+			probe := r.Chance(1, 3) || scripted // (the plan's CryptoLength also caps a regular packet; a PTO probe is not capped)
+			pkt, err, pan := rx.Pack(probe)
+			after := rx.Queue()
+			popped, ok := udPopped(before, after)
+			if !ok {
+				o.fail("udial/retx/queue", "the retransmission queue changed in a way no sequence of pops explains", detail(fmt.Sprintf("before=%v after=%v; %s", before, after, strings.Join(hist, "; "))))
+			}
+			res := "RNone"
+			switch {
+			case pan != nil:
+				res = u.App("RErr", "3")
+				o.fail("udial/retx/panic", fmt.Sprintf("packing a retransmission panics: %v", pan), detail(strings.Join(hist, "; ")))
+				dead = true
+			case err != nil:
+				cls := "2"
+				if strings.Contains(err.Error(), "failed to reassemble CRYPTO frames") {
+					cls = "1"
+					o.fail("udial/retx/noncontiguous", "packing a retransmission fails: "+err.Error()+" (the lost ranges packed into one Initial packet are not adjacent)", detail(fmt.Sprintf("queue=%v popped=%v; %s", before, popped, strings.Join(hist, "; "))))
+				} else {
+					o.fail("udial/retx/error", "packing a retransmission fails: "+err.Error(), detail(fmt.Sprintf("queue=%v popped=%v; %s", before, popped, strings.Join(hist, "; "))))
+				}
+				res = u.App("RErr", cls)
+				dead = true
+			case pkt != nil:
+				res = u.App("RPkt", u.Z(pkt.PN), udRanges(pkt.Frames))
+				cov := make([]bool, n)
+				if msg := udWireCover(pkt.Wire, hello, cov); msg != "" {
+					o.fail("udial/retx/wire", "retransmission: "+msg, detail(strings.Join(hist, "; ")))
+				}
+				for _, f := range pkt.Frames {
+					for b := f.Off; b < f.Off+f.Len; b++ {
+						if !cov[b] {
+							o.fail("udial/retx/wire", fmt.Sprintf("retransmission pn%d registers CRYPTO [%d,%d) but byte %d is not in its payload", pkt.PN, f.Off, f.Off+f.Len, b), detail(strings.Join(hist, "; ")))
+							break
+						}
+					}
+				}
+				hist = append(hist, fmt.Sprintf("resent pn%d %v", pkt.PN, pkt.Frames))
+			}
+			ops = append(ops, u.App("RPack", u.B(probe), udRanges(before), udRanges(popped), udRanges(after), res))
+			if dead || (pkt == nil && err == nil) {
+				break
+			}
+		}
+	}
+	if !dead {
+		// every byte is acknowledged, outstanding or queued: acknowledged and outstanding packets'
+		// frames plus the queue cover [0,n)
+		o.dist["retx drained"]++
+	} else {
+		o.dist["retx error"]++
+	}
+	nt := 0
+	if len(ops) > 0 {
+		nt = 1
+	}
+	fmt.Fprintf(o.w, "CASE %d %s\n", nt, u.App("Retx", u.Z(int64(n)), u.B(planned), u.List(flight), u.List(ops)))
+	_ = pns
+}
+
+
 func runUDial(w *bufio.Writer, seed uint64, n int, args []string) {
 	r := u.NewRng(seed)
 	o := &udOut{w: w, seen: map[string]int{}, dist: map[string]int{}}
@@ -1253,6 +1514,9 @@ func runUDial(w *bufio.Writer, seed uint64, n int, args []string) {
 		switch {
 		case i%8 == 7 && only == "":
 			udNilSpec(o, rr)
+		case i%4 == 1 && only == "":
+			udRetx(o, rr, i == 1)
+			o.dist["retx"]++
 		case i%2 == 0:
 			name := parrotNames[(i/2)%len(parrotNames)]
 			if only != "" && only != name {
